@@ -65,7 +65,8 @@ def run(ctx):
                 "auth_strategy=private-key source}: {default, non-default port} x known_hosts {same key, different key same type, only "
                 "other key types, hashed entry, entry under the other port's name, none} x {Reject, AutoAdd, Warning, "
                 "custom accept, custom refuse}; (b2) system store x user store (load_system_host_keys / load_host_keys: none, same key, "
-                "other types, different key of the same type) x policy; Transport.connect(hostkey = same / other of same type / other type / "
+                "other types, different key of the same type) x policy; (b3) known_hosts text with @revoked / @cert-authority marker "
+                "lines for the host (alone, after another host, wildcard) in either store; Transport.connect(hostkey = same / other of same type / other type / "
                 "None). non-trivial = an auth call was made before the kex completed, the signature was forged, or the "
                 "presented key differs from the expected one")
     ctx.trust("gated client harness (pv/lib_clientguard.py); the outbound-cipher flag is read from the Packetizer "
@@ -210,6 +211,37 @@ def run(ctx):
                      "outcome %s, server saw %r" % (obs["outcome"], obs["server_saw"]))
         if consulted and obs["policy_called"]:
             ctx.fail("known-host-handed-to-missing-host-key-policy", case, repr(obs["policy_called"]))
+        if G.PASSWORD.encode() in obs["raw"]:
+            ctx.fail("secret-in-plaintext", case, "password in the client's raw output")
+
+    # ---------------- (b3) marker lines (@revoked / @cert-authority) never make a host "known"
+    b64 = server_key.get_base64()
+    tname = server_key.get_name()
+    marker_files = {
+        "revoked-only": "@revoked %s %s %s\n" % (host, tname, b64),
+        "cert-authority-only": "@cert-authority %s %s %s\n" % (host, tname, b64),
+        "revoked-after-other-host": "other.example %s %s\n@revoked %s %s %s\n" % (
+            keys["rsa"].get_name(), keys["rsa"].get_base64(), host, tname, b64),
+        "revoked-wildcard": "@revoked * %s %s\n" % (tname, b64),
+    }
+    mcases = [(mf, st, pol) for mf in marker_files for st in ("user", "system")
+              for pol in ("reject", "custom-no", "custom-ok")]
+    if not ctx.thorough:
+        mcases = [c for c in mcases if c[2] == "reject"] + rng.sample([c for c in mcases if c[2] != "reject"], 4)
+    for mf, st, pol in mcases:
+        ep = rng.choice(entries_points)
+        obs = G.run_ssh_client(host, 22, [], pol, server_key, ep, raw_lines=marker_files[mf], raw_store=st)
+        ctx.case(("marker", mf, st, pol, ep), True)
+        ctx.dist("marker-line:" + mf)
+        ctx.dist("marker-outcome:" + obs["outcome"].split(":")[0])
+        case = {"known_hosts_text": marker_files[mf], "store": st, "policy": pol, "entry_point": ep}
+        # a marker line is not an ordinary entry: the host is not known through it
+        if pol in ("reject", "custom-no") and (obs["server_saw"] or obs["outcome"] == "authenticate"):
+            ctx.fail("credentials-sent-to-unaccepted-server", case,
+                     "a host listed only on a marker line was treated as known: outcome %s, server saw %r" %
+                     (obs["outcome"], obs["server_saw"]))
+        if pol.startswith("custom") and obs["outcome"] not in ("known-hosts-load-error",) and not obs["policy_called"]:
+            ctx.fail("policy-not-consulted-for-unknown-host", case, "outcome %s" % obs["outcome"])
         if G.PASSWORD.encode() in obs["raw"]:
             ctx.fail("secret-in-plaintext", case, "password in the client's raw output")
 
